@@ -340,3 +340,25 @@ extern "C" int h_far() {
   __vp_reached("far.end");
   return 0;
 }
+
+// C05 kernel: frames replaced in place by frames with ANOTHER sub-frame count (a recording resampled in place).  No count parameter
+// changes in such a call; once every frame has been replaced all frames agree again and so must the three views.
+extern "C" int h_resub() {
+  const int n = __vp_cfg("frames"), s0 = __vp_cfg("sub0"), s1 = __vp_cfg("sub1"), C = __vp_cfg("channels");
+  ezc3d::c3d c; set_rate(c, "POINT", 100.f); set_rate(c, "ANALOG", 100.f * s0);
+  c.point("p0"); for (int i = 0; i < C; ++i) c.analog(num("a", i));
+  for (int pass = 0; pass < 2; ++pass) {
+    const int S = pass ? s1 : s0;
+    if (pass) set_rate(c, "ANALOG", 100.f * s1);
+    for (int k = 0; k < n; ++k) {
+      Frame fr; Points pts; Analogs ana;
+      Point p; p.name("p0"); p.x(__vp_sym_f32("x")); p.y(__vp_sym_f32("y")); p.z(__vp_sym_f32("z")); p.residual(__vp_sym_f32("r")); pts.point(p);
+      for (int s = 0; s < S; ++s) { SubFrame sf; for (int i = 0; i < C; ++i) { Channel ch; ch.name(num("a", i)); ch.data(__vp_sym_f32("a")); sf.channel(ch); } ana.subframe(sf); }
+      fr.add(pts, ana);
+      if (pass) c.frame(fr, (size_t)k); else c.frame(fr);
+    }
+  }
+  dump_all(c, "after", false);
+  __vp_reached("resub.end");
+  return 0;
+}
